@@ -25,6 +25,11 @@
 #include "vp_object.h"
 // the real moc output of the build (signal bodies, staticMetaObject); generated files stay in /repo/_build (-I/repo/_build/src)
 #include "QXmppQt5_autogen/7EM65HM6UG/moc_QXmppCarbonManager.cpp"
+// (A) the managers are built by their REAL constructors and destroyed by their real destructors; the vtables / meta objects of the
+// class chain QXmppCarbonManager[V2] < QXmppClientExtension < QXmppLoggable come from the real moc output too
+#include "QXmppQt5_autogen/7EM65HM6UG/moc_QXmppCarbonManagerV2.cpp"
+#include "QXmppQt5_autogen/7EM65HM6UG/moc_QXmppClientExtension.cpp"
+#include "QXmppQt5_autogen/CZ4SVKUTXB/moc_QXmppLogger.cpp"
 
 extern "C" {
 void vp_c11_setup(QXmppClient *client, const QXmppConfiguration *cfg);
@@ -56,14 +61,24 @@ bool vp_qstring_eq(const QString *a, const QString *b);
 // Account identity: REAL QXmppConfiguration built with the real setters from a symbolic user (0..2 units), domain (1..3 units) and
 // resource (0..2 units); user and domain contain neither '@' nor '/'.  `bare` is the own bare JID composed by the oracle's side.
 static bool jidPartOk(const QString &s) { for (int i = 0; i < s.size(); i++) if (s.at(i) == u'@' || s.at(i) == u'/') return false; return true; }
+#ifndef C11_ULEN
+#define C11_ULEN 2   // user: 0..2 units
+#endif
+#ifndef C11_DLEN
+#define C11_DLEN 3   // domain: 1..3 units
+#endif
 struct Account {
     QXmppConfiguration cfg; QString user, domain, resource, bare;
+    void draw()   // an arbitrary account identity of the bound + its bare JID as the oracle composes it
+    {
+        user = vpSymString(C11_ULEN); domain = vpSymStringNonEmpty(C11_DLEN); resource = vpSymString(2);
+        vp_assume(jidPartOk(user) && jidPartOk(domain));
+        vp_c11_compose_bare(&bare, &user, &domain);
+    }
     void make(QXmppClient *client)
     {
-        user = vpSymString(2); domain = vpSymStringNonEmpty(3); resource = vpSymString(2);
-        vp_assume(jidPartOk(user) && jidPartOk(domain));
+        draw();
         cfg.setUser(user); cfg.setDomain(domain); cfg.setResource(resource);
-        vp_c11_compose_bare(&bare, &user, &domain);
         vp_c11_setup(client, &cfg);
     }
 };
@@ -84,9 +99,10 @@ struct Node {
         vp_dom_new(&el, &t, &n);
     }
 };
-struct Tree {
-    Node outer, l1[C11_N1], l2[C11_N1][C11_N2], l3[C11_N1][C11_N2][C11_N3];
-    unsigned n1, n2[C11_N1], n3[C11_N1][C11_N2];
+// dimensions are template parameters so that a sequence harness can use a smaller tree for its first stanza; Tree = the default size
+template<int TN1, int TN2, int TN3> struct TreeT {
+    Node outer, l1[TN1], l2[TN1][TN2], l3[TN1][TN2][TN3];
+    unsigned n1, n2[TN1], n3[TN1][TN2];
     bool hasFrom; QString from;        // outer 'from' attribute (absent / 0..4 arbitrary UTF-16 units)
     // withFrom: the outer stanza has a 'from' attribute (its own instance, so that the attribute value is never a symbolic choice
     // between a model string and Qt's static null string - that mix defeats constant propagation in the string model)
@@ -97,31 +113,33 @@ struct Tree {
         hasFrom = withFrom; from = vpSymString(C11_STRLEN);
         if (hasFrom) vp_dom_set_attr(&outer.el, &fromName, &from);
         const bool innerHasFrom = true; QString innerFrom = vpSymString(C11_STRLEN);   // 'from' of every wrapper / inner element
-        for (int i = 0; i < C11_N1; i++) {
+        for (int i = 0; i < TN1; i++) {
             l1[i].make(&outer); vp_dom_append(&outer.el, &l1[i].el);
             if (innerHasFrom) vp_dom_set_attr(&l1[i].el, &fromName, &innerFrom);
-            for (int j = 0; j < C11_N2; j++) {
+            for (int j = 0; j < TN2; j++) {
                 l2[i][j].make(&l1[i]); vp_dom_append(&l1[i].el, &l2[i][j].el);
                 if (innerHasFrom) vp_dom_set_attr(&l2[i][j].el, &fromName, &innerFrom);
-                for (int k = 0; k < C11_N3; k++) {
+                for (int k = 0; k < TN3; k++) {
                     l3[i][j][k].make(&l2[i][j]); vp_dom_append(&l2[i][j].el, &l3[i][j][k].el);
                     if (innerHasFrom) vp_dom_set_attr(&l3[i][j][k].el, &fromName, &innerFrom);
                 }
             }
         }
         // symbolic child counts (0..N): absent children
-        n1 = vp_u8(); vp_assume(n1 <= C11_N1); vp_dom_truncate(&outer.el, n1);
-        for (int i = 0; i < C11_N1; i++) {
-            n2[i] = vp_u8(); vp_assume(n2[i] <= C11_N2); vp_dom_truncate(&l1[i].el, n2[i]);
-            for (int j = 0; j < C11_N2; j++) { n3[i][j] = vp_u8(); vp_assume(n3[i][j] <= C11_N3); vp_dom_truncate(&l2[i][j].el, n3[i][j]); }
+        n1 = vp_u8(); vp_assume(n1 <= TN1); vp_dom_truncate(&outer.el, n1);
+        for (int i = 0; i < TN1; i++) {
+            n2[i] = vp_u8(); vp_assume(n2[i] <= TN2); vp_dom_truncate(&l1[i].el, n2[i]);
+            for (int j = 0; j < TN2; j++) { n3[i][j] = vp_u8(); vp_assume(n3[i][j] <= TN3); vp_dom_truncate(&l2[i][j].el, n3[i][j]); }
         }
     }
 };
+typedef TreeT<C11_N1, C11_N2, C11_N3> Tree;
 
 static char clientStorage[16];
 
 // Oracle shared by both manager generations; the environment logged the deliveries made while the stanza `t` was handled.
-static void oracle(const Tree &t, const QString &bare, bool ret, bool v1, void *mgr, QXmppClient *client, int sentIdx, int recvIdx)
+// needDelivery: end the run unless the stanza was delivered (last call of a harness: the witness then proves the acceptance path reachable)
+template<int TN1, int TN2, int TN3> static void oracle(const TreeT<TN1, TN2, TN3> &t, const QString &bare, bool ret, bool v1, void *mgr, QXmppClient *client, int sentIdx, int recvIdx, bool needDelivery = true)
 {
     unsigned nd = vp_c11_ndel();
     vp_assert(nd <= 1, "C11 a stanza leads to at most one delivered message");
@@ -136,7 +154,7 @@ static void oracle(const Tree &t, const QString &bare, bool ret, bool v1, void *
         vp_assert(vp_c11_msg_alive(0), "C11 the delivered message object is alive when delivered");
         QDomElement parsed; vp_c11_parsed(0, &parsed);
         bool found = false, wasSent = false;
-        for (int i = 0; i < C11_N1; i++) for (int j = 0; j < C11_N2; j++) for (int k = 0; k < C11_N3; k++) {
+        for (int i = 0; i < TN1; i++) for (int j = 0; j < TN2; j++) for (int k = 0; k < TN3; k++) {
             if (parsed == t.l3[i][j][k].el) {
                 found = true;
                 const Node &c = t.l1[i], &f = t.l2[i][j], &m = t.l3[i][j][k];
@@ -157,32 +175,32 @@ static void oracle(const Tree &t, const QString &bare, bool ret, bool v1, void *
     }
     // coverage: with a 'from' attribute the harness end (witness) is reachable only through a delivery, so a pass is never vacuous
     // w.r.t. acceptance; without the attribute nothing can be delivered (the own bare JID is never empty)
-    if (t.hasFrom) vp_assume(nd == 1);
+    if (t.hasFrom && needDelivery) vp_assume(nd == 1);
 }
 
 static void run_v2(bool withFrom)
 {
     QXmppClient *client = reinterpret_cast<QXmppClient *>(clientStorage);
     Account acct; acct.make(client); const QString &bare = acct.bare;
-    VpRaw<QXmppCarbonManagerV2> mgr; vp_qobject_construct(mgr.p(), nullptr); mgr->m_client = client;
+    QXmppCarbonManagerV2 mgr; mgr.m_client = client;   // real constructor chain (members initialised the way the library does)
     Tree t; t.build(withFrom);
     std::optional<QXmppE2eeMetadata> e2ee;
-    bool ret = mgr->QXmppCarbonManagerV2::handleStanza(t.outer.el, e2ee);
-    oracle(t, bare, ret, false, mgr.p(), client, -1, -1);
+    bool ret = mgr.QXmppCarbonManagerV2::handleStanza(t.outer.el, e2ee);
+    oracle(t, bare, ret, false, &mgr, client, -1, -1);
 }
 
 static void run_v1(bool withFrom)
 {
     QXmppClient *client = reinterpret_cast<QXmppClient *>(clientStorage);
     Account acct; acct.make(client); const QString &bare = acct.bare;
-    VpRaw<QXmppCarbonManager> mgr; vp_qobject_construct(mgr.p(), nullptr); mgr->m_client = client;
+    QXmppCarbonManager mgr; mgr.m_client = client;   // real constructor chain
     // calibrate the signal indices through the real moc code
     int sentIdx, recvIdx;
-    { QXmppMessage probe; mgr->messageSent(probe); sentIdx = int(vp_c11_sigidx(0)); vp_c11_reset(); mgr->messageReceived(probe); recvIdx = int(vp_c11_sigidx(0)); vp_c11_reset(); }
+    { QXmppMessage probe; mgr.messageSent(probe); sentIdx = int(vp_c11_sigidx(0)); vp_c11_reset(); mgr.messageReceived(probe); recvIdx = int(vp_c11_sigidx(0)); vp_c11_reset(); }
     vp_assert(sentIdx != recvIdx, "C11 V1 messageSent and messageReceived are distinct signals");
     Tree t; t.build(withFrom);
-    bool ret = mgr->QXmppCarbonManager::handleStanza(t.outer.el);
-    oracle(t, bare, ret, true, mgr.p(), client, sentIdx, recvIdx);
+    bool ret = mgr.QXmppCarbonManager::handleStanza(t.outer.el);
+    oracle(t, bare, ret, true, &mgr, client, sentIdx, recvIdx);
 }
 
 extern "C" void h_v2() { run_v2(true); }
